@@ -120,6 +120,52 @@ def run_harness_split(binpath, sub, tablesf, cases, casef, obsf, nparts=4, timeo
             pass
 
 
+def step_traces(vh, sub, spec, cfg, wdir, tablesf, fam, what, extra_env=None, per=1500):
+    """Step-level trace validation: the resolver (verif hook) reports every step of its main loop; `vh <sub>` records the events
+    (VERIF_STEPS), one "start" event with the universe per resolution; TLC consumes them as actions of the algorithm model
+    (spec/<spec>.tla, deadlock checking on: a step the model cannot take stops the run at that line).  Information, not a
+    verdict: a rejection says the specification no longer describes the code."""
+    import concurrent.futures as cf
+    casef, stepsf = os.path.join(wdir, "step_cases.ndjson"), os.path.join(wdir, "steps.ndjson")
+    write_ndjson(casef, [{"universe": c["universe"], "root": c["root"]} for c in fam])
+    run_harness(vh, [sub, tablesf, casef, os.path.join(wdir, "step_obs.ndjson")], env={"VERIF_STEPS": stepsf}, timeout=3000)
+    lines = open(stepsf).readlines()
+    starts = [i for i, ln in enumerate(lines) if ln.startswith('{"ev":"start"')]
+    if len(starts) != len(fam):
+        raise Trouble("step recording: %d start events for %d resolutions" % (len(starts), len(fam)))
+    chunks = []
+    for k in range(0, len(starts), per):
+        lo, hi = starts[k], (starts[k + per] if k + per < len(starts) else len(lines))
+        f = "%s.%03d" % (stepsf, k // per)
+        with open(f, "w") as g:
+            g.writelines(lines[lo:hi])
+        chunks.append((f, lo))
+
+    def one(f, lo):
+        env = {"VERIF_TRACE": f}
+        env.update(extra_env or {})
+        r = tlc(spec, os.path.join(SPEC, cfg), wdir, env=env, workers=1, timeout=2400, heap="4g", deadlock=True)
+        if r.ok:
+            return r.distinct, None
+        if "Deadlock reached" in r.out:
+            m = re.findall(r"/\\ l = (\d+)", r.out)
+            at = lo + int(m[-1]) if m else None
+            return r.distinct, {"line": at, "event": json.loads(lines[at - 1]) if at and at <= len(lines) else None}
+        raise Trouble("%s: violation=%s error=%s\n%s" % (spec, r.violation, r.error, r.out[-2000:]))
+    states, rejected = 0, []
+    with cf.ThreadPoolExecutor(max_workers=6) as ex:
+        for fut in [ex.submit(one, f, lo) for f, lo in chunks]:
+            st, rej = fut.result()
+            states += st
+            if rej:
+                rejected.append(rej)
+    for f, _ in chunks:
+        os.remove(f)
+    if rejected:
+        print("NOTE: the %s resolver's step trace is not a behaviour of the algorithm model at %s (not a verdict)" % (what, json.dumps(rejected[0])[:300]))
+    return {"resolutions": len(fam), "events": len(lines), "states": states, "accepted": not rejected, "rejected_at": rejected[:3]}
+
+
 import threading
 _spec_lock = threading.Lock()
 
